@@ -240,7 +240,7 @@ int main(void)
             unsigned long long sd; int nt = 0;
             sscanf(line + 1, "%d %d %llu", &sp_prob, &sp_spin, &sd);
             sp_seed = sd; sp_ctr = 0; sp_taken = 0; stamp = 0; go = 0;
-            alarm(25);
+            alarm(60);
             for (int t = 0; t < MAXT; t++) if (ntops[t]) { nt = t + 1; }
             for (int t = 0; t < nt; t++) { qthread_fork(task_body, (void *)(intptr_t)t, &trets[t]); }
             sp_on = 1; go = 1;
